@@ -156,8 +156,9 @@ impl<const OUT: usize> Authenticator for RecordingMac<OUT> {
 /// then report as "reproduced natively".  Every stubbed harness therefore
 /// starts with `if !stubs_in_force() { return; }`; this function is replaced
 /// by `stubs_are_in_force` through #[kani::stub] in the same attribute list
-/// as S5.  Natively the harness returns at once (test passes: "not reproduced
-/// natively", i.e. inconclusive); under Kani a missing stub leaves the cover
+/// as S5, and the call is placed after the last kani::any() (playback fails a
+/// test that leaves concrete values unused).  Natively the harness returns
+/// there (test passes: "not reproduced natively", i.e. inconclusive); under Kani a missing stub leaves the cover
 /// witnesses unreachable (inconclusive as well).
 pub(crate) fn stubs_in_force() -> bool {
     false
@@ -382,8 +383,7 @@ fn same_stream(e: &Stream) {
 /// Tamper detection as coverage: every octet of the message other than the
 /// (replaced) ID is fed to the MAC; ARCOUNT enters as ARCOUNT-1 (a
 /// bijection), the ID is replaced by the original ID of the TSIG RR.
-fn message_covered(msg: &[u8], off: usize, original_id: u16) {
-    let k: usize = kani::any();
+fn message_covered(msg: &[u8], off: usize, original_id: u16, k: usize) {
     kani::assume(k < msg.len());
     unsafe {
         if k < 2 {
@@ -426,15 +426,17 @@ fn alg_out(alg: Algorithm) -> usize {
 /// have concrete lengths and symbolic contents; `error` is concrete per
 /// harness (it decides the length of the other-data field).
 fn sign_case(mode: Mode, alg: Algorithm, msg: &[u8], prior: &[u8], error: u16) {
-    if !stubs_in_force() {
-        return;
-    }
     kani::assume(be16(msg, 10) >= 1); // documented precondition: ARCOUNT counts the TSIG RR
     let key: [u8; 2] = kani::any();
     let time: [u8; 6] = kani::any();
     let server_time: [u8; 6] = kani::any();
     let fudge: u16 = kani::any();
     let original_id: u16 = kani::any();
+    let k_probe: usize = kani::any();
+    // all symbolic values are drawn; see stubs_in_force
+    if !stubs_in_force() {
+        return;
+    }
     let prepared = PreparedTsigRr {
         key_name: key_name(),
         time_signed: TimeSigned::from(time),
@@ -469,7 +471,7 @@ fn sign_case(mode: Mode, alg: Algorithm, msg: &[u8], prior: &[u8], error: u16) {
         assert!(REC_MADE == 1, "[C11] exactly one MAC computation per signature");
     }
     same_stream(&e);
-    message_covered(msg, off, original_id);
+    message_covered(msg, off, original_id, k_probe);
 
     // ---- the MAC returned
     let out = alg_out(alg);
@@ -534,42 +536,42 @@ macro_rules! sign_harness {
     };
 }
 
-// @harness name=c11_sign_request_sha256_b5 props=C11 tier=quick mem=6 t=900 stubs="S5,S5a" kani="--no-assertion-reach-checks"
+// @harness name=c11_sign_request_sha256_b5 props=C11 tier=quick mem=3 t=900 stubs="S5,S5a" kani="--no-assertion-reach-checks"
 //   fn="PreparedTsigRr::sign_request,add_modified_message,add_tsig_variables,add_tsig_timers,PreparedTsigRr::serialize_rdata,PreparedTsigRr::other,Rdata::new_tsig,Rdata::validate_as_tsig,Algorithm::name,Algorithm::output_size"
 //   bound="message = 12 symbolic header octets (ARCOUNT >= 1) + 5 symbolic body octets; hmac-sha256; key name 'k.'; 2-octet symbolic key; symbolic original ID, time signed (48 bits), fudge, server time; error NOERROR; unwind 34"
 //   sym="msg:[u8;17], key:[u8;2], time:[u8;6], server_time:[u8;6], fudge:u16, original_id:u16"
 sign_harness!(c11_sign_request_sha256_b5, Mode::Request, Algorithm::HmacSha256, 17, 0, 0);
 
-// @harness name=c11_sign_request_sha1_b0_badtime props=C11 tier=quick mem=6 t=900 stubs="S5,S5a" kani="--no-assertion-reach-checks"
+// @harness name=c11_sign_request_sha1_b0_badtime props=C11 tier=quick mem=3 t=900 stubs="S5,S5a" kani="--no-assertion-reach-checks"
 //   fn="PreparedTsigRr::sign_request,add_modified_message,add_tsig_variables,PreparedTsigRr::other,Rdata::new_tsig"
 //   bound="message = 12 symbolic header octets only (ARCOUNT >= 1); hmac-sha1; error BADTIME (other data = 6 symbolic server-time octets); symbolic key, original ID, time, fudge; unwind 34"
 //   sym="msg:[u8;12], key:[u8;2], time:[u8;6], server_time:[u8;6], fudge:u16, original_id:u16"
 sign_harness!(c11_sign_request_sha1_b0_badtime, Mode::Request, Algorithm::HmacSha1, 12, 0, 18);
 
-// @harness name=c11_sign_response_sha256_b5_r32 props=C11 tier=quick mem=6 t=900 stubs="S5,S5a" kani="--no-assertion-reach-checks"
+// @harness name=c11_sign_response_sha256_b5_r32 props=C11 tier=quick mem=3 t=900 stubs="S5,S5a" kani="--no-assertion-reach-checks"
 //   fn="PreparedTsigRr::sign_response,add_modified_message,add_tsig_variables,Rdata::new_tsig"
 //   bound="message 12+5 symbolic octets; request MAC of 32 symbolic octets; hmac-sha256; error NOERROR; symbolic key, original ID, time, fudge; unwind 34"
 //   sym="msg:[u8;17], request_mac:[u8;32], key:[u8;2], time:[u8;6], fudge:u16, original_id:u16"
 sign_harness!(c11_sign_response_sha256_b5_r32, Mode::Response, Algorithm::HmacSha256, 17, 32, 0);
 
-// @harness name=c11_sign_response_sha1_b9_r20_badtime props=C11 tier=quick mem=6 t=900 stubs="S5,S5a" kani="--no-assertion-reach-checks"
+// @harness name=c11_sign_response_sha1_b9_r20_badtime props=C11 tier=quick mem=3 t=900 stubs="S5,S5a" kani="--no-assertion-reach-checks"
 //   fn="PreparedTsigRr::sign_response,add_modified_message,add_tsig_variables,PreparedTsigRr::other,Rdata::new_tsig"
 //   bound="message 12+9 symbolic octets; request MAC of 20 symbolic octets; hmac-sha1; error BADTIME with 6 symbolic server-time octets; unwind 34"
 //   sym="msg:[u8;21], request_mac:[u8;20], key:[u8;2], time:[u8;6], server_time:[u8;6], fudge:u16, original_id:u16"
 sign_harness!(c11_sign_response_sha1_b9_r20_badtime, Mode::Response, Algorithm::HmacSha1, 21, 20, 18);
 
-// @harness name=c11_sign_response_sha256_b0_r0 props=C11 tier=thorough mem=6 t=900 stubs="S5,S5a" kani="--no-assertion-reach-checks"
+// @harness name=c11_sign_response_sha256_b0_r0 props=C11 tier=thorough mem=3 t=900 stubs="S5,S5a" kani="--no-assertion-reach-checks"
 //   fn="PreparedTsigRr::sign_response" bound="message 12 symbolic octets; empty request MAC (length prefix 0 only); hmac-sha256; error BADKEY(17) (no other data); unwind 34"
 //   sym="msg:[u8;12], key:[u8;2], time:[u8;6], fudge:u16, original_id:u16"
 sign_harness!(c11_sign_response_sha256_b0_r0, Mode::Response, Algorithm::HmacSha256, 12, 0, 17);
 
-// @harness name=c11_sign_subsequent_sha256_b5_r32 props=C11 tier=quick mem=6 t=900 stubs="S5,S5a" kani="--no-assertion-reach-checks"
+// @harness name=c11_sign_subsequent_sha256_b5_r32 props=C11 tier=quick mem=3 t=900 stubs="S5,S5a" kani="--no-assertion-reach-checks"
 //   fn="PreparedTsigRr::sign_subsequent,add_modified_message,add_tsig_timers,Rdata::new_tsig"
 //   bound="message 12+5 symbolic octets; prior MAC of 32 symbolic octets; hmac-sha256; error NOERROR; digest = prior MAC, message, timers only; unwind 34"
 //   sym="msg:[u8;17], prior_mac:[u8;32], key:[u8;2], time:[u8;6], fudge:u16, original_id:u16"
 sign_harness!(c11_sign_subsequent_sha256_b5_r32, Mode::Subsequent, Algorithm::HmacSha256, 17, 32, 0);
 
-// @harness name=c11_sign_subsequent_sha1_b9_r20 props=C11 tier=thorough mem=6 t=900 stubs="S5,S5a" kani="--no-assertion-reach-checks"
+// @harness name=c11_sign_subsequent_sha1_b9_r20 props=C11 tier=thorough mem=3 t=900 stubs="S5,S5a" kani="--no-assertion-reach-checks"
 //   fn="PreparedTsigRr::sign_subsequent,add_modified_message,add_tsig_timers"
 //   bound="message 12+9 symbolic octets; prior MAC of 20 symbolic octets; hmac-sha1; error BADTIME (other data in the RDATA but not in the digest); unwind 34"
 //   sym="msg:[u8;21], prior_mac:[u8;20], key:[u8;2], time:[u8;6], server_time:[u8;6], fudge:u16, original_id:u16"
@@ -656,9 +658,6 @@ fn rdata_of<const N: usize>(aw: &[u8], upcase: bool, time: &[u8; 6], fudge: u16,
 /// the algorithm name inside the RDATA is in upper case (the digest uses the
 /// canonical, lower-case form).
 fn verify_case<const M: usize, const L: usize, const R: usize, const O: usize, const N: usize>(mode: Mode, alg: Algorithm, upcase: bool) {
-    if !stubs_in_force() {
-        return;
-    }
     let msg: [u8; M] = kani::any();
     kani::assume(be16(&msg, 10) >= 1);
     let key: [u8; 2] = kani::any();
@@ -670,6 +669,11 @@ fn verify_case<const M: usize, const L: usize, const R: usize, const O: usize, c
     let mac: [u8; L] = kani::any();
     let other: [u8; O] = kani::any();
     let prior: [u8; R] = kani::any();
+    let k_probe: usize = kani::any();
+    // all symbolic values are drawn; see stubs_in_force
+    if !stubs_in_force() {
+        return;
+    }
     let aw = alg_wire(alg);
     let rd: [u8; N] = rdata_of::<N>(aw, upcase, &time, fudge, &mac, oid, error, &other);
     // what ReadTsigRr::try_from produces for this RR (decided separately by
@@ -739,15 +743,15 @@ fn verify_case<const M: usize, const L: usize, const R: usize, const O: usize, c
             assert!(REC_MADE == 1, "[C11] exactly one MAC computation per verification");
         }
         same_stream(&e);
-        message_covered(&msg, off, oid);
+        message_covered(&msg, off, oid, k_probe);
     }
-    if ref_size_ok(out, L) {
-        kani::cover!(res.is_ok() && u48(&now) < u48(&time), "verification succeeds with now before time signed");
-        kani::cover!(res == Err(VerificationError::BadSig), "BADSIG");
-        kani::cover!(res == Err(VerificationError::BadTime), "BADTIME");
-    } else {
-        kani::cover!(res == Err(VerificationError::FormErr), "FORMERR for the MAC size");
-    }
+    // witnesses (phrased so that each is reachable whatever the MAC size)
+    kani::cover!(
+        if size_ok { res.is_ok() && u48(&now) < u48(&time) } else { res == Err(VerificationError::FormErr) },
+        "acceptable MAC size: accepted with now before time signed / unacceptable size: FORMERR"
+    );
+    kani::cover!(if size_ok { res == Err(VerificationError::BadSig) } else { true }, "BADSIG (acceptable MAC size)");
+    kani::cover!(if size_ok { res == Err(VerificationError::BadTime) } else { true }, "BADTIME (acceptable MAC size)");
     core::mem::forget(tsig);
 }
 
@@ -766,65 +770,65 @@ macro_rules! verify_harness {
 
 // RDATA length N = algorithm name (13 for hmac-sha256., 11 for hmac-sha1.) + 16 + L + O
 
-// @harness name=c11_verify_request_sha256_l32 props=C11 tier=quick mem=6 t=900 stubs="S5,S5a" kani="--no-assertion-reach-checks"
+// @harness name=c11_verify_request_sha256_l32 props=C11 tier=quick mem=3 t=900 stubs="S5,S5a" kani="--no-assertion-reach-checks"
 //   fn="ReadTsigRr::try_from,ReadTsigRr::verify_request,ReadTsigRr::verification_core,check_mac_size,check_time,add_modified_message,add_tsig_variables,ReadTsigRr::time_signed,ReadTsigRr::fudge,ReadTsigRr::mac,ReadTsigRr::original_id,ReadTsigRr::error,ReadTsigRr::other"
 //   bound="message 12+5 symbolic octets (ARCOUNT >= 1); TSIG RR owner 'k.', algorithm hmac-sha256., full 32-octet symbolic MAC, symbolic time/fudge/original ID/error, no other data; symbolic now (48 bits), 2-octet symbolic key; unwind 34"
 //   sym="msg:[u8;17], mac:[u8;32], key:[u8;2], time, now:[u8;6], fudge, original_id, error:u16"
 verify_harness!(c11_verify_request_sha256_l32, Mode::Request, Algorithm::HmacSha256, false, 17, 32, 0, 0, 61);
 
-// @harness name=c11_verify_request_sha256_l16_upcase props=C11 tier=quick mem=6 t=900 stubs="S5,S5a" kani="--no-assertion-reach-checks"
+// @harness name=c11_verify_request_sha256_l16_upcase props=C11 tier=quick mem=3 t=900 stubs="S5,S5a" kani="--no-assertion-reach-checks"
 //   fn="ReadTsigRr::try_from,ReadTsigRr::verify_request,ReadTsigRr::verification_core,check_mac_size,Name::make_ascii_lowercase"
 //   bound="as above with a MAC truncated to 16 octets (the minimum for hmac-sha256); the algorithm name inside the RDATA is 'HMAC-SHA256.' in upper case (the digest must use the lower-case form held by the ReadTsigRr); unwind 34"
 //   sym="msg:[u8;17], mac:[u8;16], key, time, now, fudge, original_id, error"
 verify_harness!(c11_verify_request_sha256_l16_upcase, Mode::Request, Algorithm::HmacSha256, true, 17, 16, 0, 0, 45);
 
-// @harness name=c11_verify_request_sha256_l15 props=C11 tier=quick mem=4 t=600 stubs="S5,S5a" kani="--no-assertion-reach-checks"
+// @harness name=c11_verify_request_sha256_l15 props=C11 tier=quick mem=3 t=900 stubs="S5,S5a" kani="--no-assertion-reach-checks"
 //   fn="ReadTsigRr::verify_request,check_mac_size" bound="MAC of 15 octets with hmac-sha256 (one below the minimum): FORMERR for every content; unwind 34"
 //   sym="msg:[u8;17], mac:[u8;15], key, time, now, fudge, original_id, error"
 verify_harness!(c11_verify_request_sha256_l15, Mode::Request, Algorithm::HmacSha256, false, 17, 15, 0, 0, 44);
 
-// @harness name=c11_verify_request_sha256_l33 props=C11 tier=quick mem=4 t=600 stubs="S5,S5a" kani="--no-assertion-reach-checks"
+// @harness name=c11_verify_request_sha256_l33 props=C11 tier=quick mem=3 t=900 stubs="S5,S5a" kani="--no-assertion-reach-checks"
 //   fn="ReadTsigRr::verify_request,check_mac_size" bound="MAC of 33 octets with hmac-sha256 (one above the output size): FORMERR; unwind 34"
 //   sym="msg:[u8;17], mac:[u8;33], key, time, now, fudge, original_id, error"
 verify_harness!(c11_verify_request_sha256_l33, Mode::Request, Algorithm::HmacSha256, false, 17, 33, 0, 0, 62);
 
-// @harness name=c11_verify_request_sha1_l10 props=C11 tier=quick mem=6 t=900 stubs="S5,S5a" kani="--no-assertion-reach-checks"
+// @harness name=c11_verify_request_sha1_l10 props=C11 tier=quick mem=3 t=900 stubs="S5,S5a" kani="--no-assertion-reach-checks"
 //   fn="ReadTsigRr::verify_request,check_mac_size" bound="message 12+0; hmac-sha1 with a MAC truncated to 10 octets (the minimum); unwind 34"
 //   sym="msg:[u8;12], mac:[u8;10], key, time, now, fudge, original_id, error"
 verify_harness!(c11_verify_request_sha1_l10, Mode::Request, Algorithm::HmacSha1, false, 12, 10, 0, 0, 37);
 
-// @harness name=c11_verify_request_sha1_l9 props=C11 tier=thorough mem=4 t=600 stubs="S5,S5a" kani="--no-assertion-reach-checks"
+// @harness name=c11_verify_request_sha1_l9 props=C11 tier=thorough mem=3 t=900 stubs="S5,S5a" kani="--no-assertion-reach-checks"
 //   fn="ReadTsigRr::verify_request,check_mac_size" bound="hmac-sha1 with a 9-octet MAC: FORMERR; unwind 34"
 //   sym="msg:[u8;12], mac:[u8;9], key, time, now, fudge, original_id, error"
 verify_harness!(c11_verify_request_sha1_l9, Mode::Request, Algorithm::HmacSha1, false, 12, 9, 0, 0, 36);
 
-// @harness name=c11_verify_request_sha1_l21 props=C11 tier=thorough mem=4 t=600 stubs="S5,S5a" kani="--no-assertion-reach-checks"
+// @harness name=c11_verify_request_sha1_l21 props=C11 tier=thorough mem=3 t=900 stubs="S5,S5a" kani="--no-assertion-reach-checks"
 //   fn="ReadTsigRr::verify_request,check_mac_size" bound="hmac-sha1 with a 21-octet MAC: FORMERR; unwind 34"
 //   sym="msg:[u8;12], mac:[u8;21], key, time, now, fudge, original_id, error"
 verify_harness!(c11_verify_request_sha1_l21, Mode::Request, Algorithm::HmacSha1, false, 12, 21, 0, 0, 48);
 
-// @harness name=c11_verify_request_sha256_l0 props=C11 tier=thorough mem=4 t=600 stubs="S5,S5a" kani="--no-assertion-reach-checks"
+// @harness name=c11_verify_request_sha256_l0 props=C11 tier=thorough mem=3 t=900 stubs="S5,S5a" kani="--no-assertion-reach-checks"
 //   fn="ReadTsigRr::verify_request,check_mac_size" bound="empty MAC: FORMERR; unwind 34"
 //   sym="msg:[u8;17], key, time, now, fudge, original_id, error"
 verify_harness!(c11_verify_request_sha256_l0, Mode::Request, Algorithm::HmacSha256, false, 17, 0, 0, 0, 29);
 
-// @harness name=c11_verify_response_sha1_l20_r20_badtime props=C11 tier=quick mem=6 t=900 stubs="S5,S5a" kani="--no-assertion-reach-checks"
+// @harness name=c11_verify_response_sha1_l20_r20_badtime props=C11 tier=quick mem=3 t=900 stubs="S5,S5a" kani="--no-assertion-reach-checks"
 //   fn="ReadTsigRr::verify_response,ReadTsigRr::verification_core,add_modified_message,add_tsig_variables,ReadTsigRr::other"
 //   bound="message 12+5; hmac-sha1 full 20-octet MAC; request MAC 20 symbolic octets; 6 symbolic other-data octets (a BADTIME response; the error field itself is symbolic); unwind 34"
 //   sym="msg:[u8;17], mac:[u8;20], request_mac:[u8;20], other:[u8;6], key, time, now, fudge, original_id, error"
 verify_harness!(c11_verify_response_sha1_l20_r20_badtime, Mode::Response, Algorithm::HmacSha1, false, 17, 20, 20, 6, 53);
 
-// @harness name=c11_verify_response_sha256_l32_r32 props=C11 tier=quick mem=6 t=900 stubs="S5,S5a" kani="--no-assertion-reach-checks"
+// @harness name=c11_verify_response_sha256_l32_r32 props=C11 tier=quick mem=3 t=900 stubs="S5,S5a" kani="--no-assertion-reach-checks"
 //   fn="ReadTsigRr::verify_response,ReadTsigRr::verification_core" bound="message 12+5; hmac-sha256 full MAC; request MAC 32 symbolic octets; no other data; unwind 34"
 //   sym="msg:[u8;17], mac:[u8;32], request_mac:[u8;32], key, time, now, fudge, original_id, error"
 verify_harness!(c11_verify_response_sha256_l32_r32, Mode::Response, Algorithm::HmacSha256, false, 17, 32, 32, 0, 61);
 
-// @harness name=c11_verify_subsequent_sha256_l32_r32 props=C11 tier=quick mem=6 t=900 stubs="S5,S5a" kani="--no-assertion-reach-checks"
+// @harness name=c11_verify_subsequent_sha256_l32_r32 props=C11 tier=quick mem=3 t=900 stubs="S5,S5a" kani="--no-assertion-reach-checks"
 //   fn="ReadTsigRr::verify_subsequent,ReadTsigRr::verification_core,add_tsig_timers" bound="message 12+5; hmac-sha256 full MAC; prior MAC 32 symbolic octets; digest = prior MAC, message, timers; unwind 34"
 //   sym="msg:[u8;17], mac:[u8;32], prior_mac:[u8;32], key, time, now, fudge, original_id, error"
 verify_harness!(c11_verify_subsequent_sha256_l32_r32, Mode::Subsequent, Algorithm::HmacSha256, false, 17, 32, 32, 0, 61);
 
-// @harness name=c11_verify_subsequent_sha1_l10_r20 props=C11 tier=thorough mem=6 t=900 stubs="S5,S5a" kani="--no-assertion-reach-checks"
+// @harness name=c11_verify_subsequent_sha1_l10_r20 props=C11 tier=thorough mem=3 t=900 stubs="S5,S5a" kani="--no-assertion-reach-checks"
 //   fn="ReadTsigRr::verify_subsequent,ReadTsigRr::verification_core,add_tsig_timers" bound="message 12+9; hmac-sha1 MAC truncated to 10; prior MAC 20 symbolic octets; unwind 34"
 //   sym="msg:[u8;21], mac:[u8;10], prior_mac:[u8;20], key, time, now, fudge, original_id, error"
 verify_harness!(c11_verify_subsequent_sha1_l10_r20, Mode::Subsequent, Algorithm::HmacSha1, false, 21, 10, 20, 0, 37);
